@@ -381,7 +381,7 @@ class SchemaParser(UserXmlParser):
                 {
                     ns.prefix: ns.uri
                     for ns in Namespace.common()
-                    if ns.uri not in ns_list
+                    if ns.uri not in ns_list and ns.prefix not in obj.ns_map
                 }
             )
 
